@@ -102,6 +102,8 @@ def stepper(case, clauses, known_ops=()):
     if "accounting" in clauses and _stats(mem) != (0, 0, False):
         raise Violation("preload-counted", case, f"counters after preloads: {_stats(mem)}")
     for op in known_ops:
+        if op[0] == "z":
+            continue
         a = op[2] & M32
         pool_words.add(a & ~3)
         pool_words.add((a + op[1] - 1) & M32 & ~3)
@@ -132,6 +134,28 @@ def stepper(case, clauses, known_ops=()):
         if op is None:
             break
         k += 1
+        if op[0] == "z":
+            # reset() of the memory system (what load_program does before every load): every layer is cleared, so the
+            # logical store, the tag models and the bookkeeping start afresh; counters are judged by their deltas only
+            try:
+                mem.reset()
+            except Exception as ex:
+                raise Violation("unexpected-exception", case, f"op {k} reset(): {type(ex).__name__}: {ex}")
+            L = riscv_store(LO)
+            models = {"alloc": RefCache(cfg["idx"], cfg["blk"], cfg["ways"], cfg["repl"], cfg["type"]),
+                      "noalloc": RefCache(cfg["idx"], cfg["blk"], cfg["ways"], cfg["repl"], cfg["type"])}
+            ref = models["alloc"]
+            seen_evictions = 0
+            written_blocks.clear()
+            evicted_written.clear()
+            wt_hit_words.clear()
+            backing = mem.memory
+            tags.add("reset")
+            if "resident" in clauses and resident_blocks(mem):
+                raise Violation("resident-set", case, f"op {k} reset(): blocks still resident {sorted(resident_blocks(mem))[:4]}")
+            if "invariant" in clauses:
+                _invariants(case, cfg, mem, backing, L, pool_words, blk_bytes, f"after op {k} reset()")
+            continue
         rw, w, addr = op[0], op[1], op[2]
         na = addr & M32
         for pa in (na & ~3, (na + w - 1) & M32 & ~3):
@@ -390,6 +414,10 @@ def history_case(draw, accepted_only=False, max_ops=60, small=None):
         return ["r", w, a, rw == "r"]
 
     ops = draw(st.lists(op(), min_size=min(max_ops, 1 if cfg["ways"] < 4 else 2 * cfg["ways"] + 2), max_size=max_ops))
+    if len(ops) >= 4 and draw(st.integers(0, 3)) == 0:
+        # the memory system is reset in mid-history (a simulation object reused for a second program); the operations
+        # after it revisit the same small address universe, so leftovers of the first half would show
+        ops.insert(draw(st.integers(2, len(ops) - 1)), ["z"])
     return {"cfg": cfg, "pre": pre, "ops": ops}
 
 
